@@ -53,7 +53,7 @@ func init() {
 		},
 		SimTimeUnit: "executor calls (no clock on this path)",
 	})
-	c10probes := []string{"directive-overrides-global-mode", "crash-state-compared", "crash-between-statement-and-bookkeeping", "statement-executed-twice-after-crash", "lease-left-after-crash"}
+	c10probes := []string{"directive-overrides-global-mode", "crash-state-compared", "crash-between-statement-and-bookkeeping", "statement-executed-twice-after-crash", "lease-left-after-crash", "lease-held-by-the-clock", "lease-expired-by-the-clock/just-past", "lease-expired-by-the-clock/an-hour-past", "lease-expired-by-stamp"}
 	for _, m := range clisim.TxModes {
 		for _, p := range clisim.CrashPoints {
 			c10probes = append(c10probes, "cell:"+m+":"+p)
@@ -72,7 +72,7 @@ func init() {
 		Stub:           []string{"none (hooks are no-op call sites; the observer is an independent mattn/go-sqlite3 connection)"},
 		Assumptions: []string{
 			"crash = SIGKILL of the process: user-space state and deferred code are lost, bytes handed to the kernel survive (no power-loss / lost-fsync model)",
-			"lease time is simulated by rewriting the lease file's expiry (clock not reached / jumped past)",
+			"lease time is simulated: the lease is stamped with and checked against the simulated clock (clock seam VERIF_NOW), which stays inside the lease, jumps one second or an hour past its expiry; or an adversary rewrites the stamp (far future / distant past)",
 			"migration statements are idempotent DDL (CREATE TABLE IF NOT EXISTS) or self-journalling INSERTs so that a repeated execution is observable, not masked",
 		},
 		SimTimeUnit: "CLI invocations and lease epochs (no timers on this path except the lease, which is simulated)",
